@@ -1,10 +1,11 @@
 import SSVerif.Model.Jsgf
 import SSVerif.Model.JsgfText
+import SSVerif.Model.JsgfNames
 import Driver.Util
 /-! driver sub-command `c05`: desugaring, accept/refuse decision, exploration and verified
 language comparison for JSGF grammars (line protocol, see tools/props/c05.py) -/
 namespace Driver.C05
-open SSVerif.Jsgf SSVerif.JsgfText SSVerif.Nfa Driver
+open SSVerif.Jsgf SSVerif.JsgfText SSVerif.JsgfNames SSVerif.Nfa Driver
 
 /-! ### reading a surface grammar (prefix token stream) -/
 
@@ -159,7 +160,33 @@ def step (s : St) (ws : List String) : St × String :=
         let T := desugar g
         let hx := fun (l : List Char) => toHex (l.map fun c => UInt8.ofNat c.toNat)
         ({ g, T, ex := none },
-         s!"tparse {hx tg.name} R={sepBy "," (N.rules.map hx)} W={sepBy "," (N.words.map hx)} I={tg.imports.length} | {showTable T}")
+         s!"tparse {hx tg.name} R={sepBy "," (N.rules.map hx)} W={sepBy "," (N.words.map hx)} I={tg.imports.length} K={showB (userNamesOK tg.name N)} | {showTable T}")
+  | ["names", hex, ks] =>
+    -- the table keys `jsgf_define_rule` formats for internal rules number k1,k2,… of a grammar of that name
+    -- (`genName`, the object of C05_generated_names_distinct), and the shape test on a list of user names
+    match parseHex hex, (ks.splitOn ",").mapM parseNat with
+    | some bytes, some ks =>
+      let gname := bytes.map fun b => Char.ofNat b.toNat
+      let hx := fun (l : List Char) => toHex (l.map fun c => UInt8.ofNat c.toNat)
+      (s, s!"names {sepBy "," (ks.map fun k => hx (genName gname k))}")
+    | _, _ => (s, "bad-op")
+  | ["readtop", ord] =>
+    -- `jsgf_read_string`: first public rule in the given iteration order of the table, and whether it builds
+    match (ord.splitOn ",").mapM parseName with
+    | some ord =>
+      let top := match readTop s.T ord with
+        | some r => showName r
+        | none => "none"
+      (s, s!"readtop {top} {showB (readString s.T ord).isSome}")
+    | none => (s, "bad-op")
+  | ["usernames", hex, names] =>
+    -- `userNamesOK` on full rule names given as hex (structural family: the names the generator chose)
+    match parseHex hex, (names.splitOn ",").mapM parseHex with
+    | some bytes, some ns =>
+      let gname := bytes.map fun b => Char.ofNat b.toNat
+      let N : Names := { rules := ns.map fun n => n.map fun b => Char.ofNat b.toNat }
+      (s, s!"usernames {showB (userNamesOK gname N)}")
+    | _, _ => (s, "bad-op")
   | "print" :: toks =>
     -- the Lean pretty-printer on a generated grammar (conventional spellings w<n>, <r<n>>, tags {t})
     match pGrammar toks with
